@@ -339,6 +339,28 @@ def F33(fil):
     return out != ("ok", 320), f"unpack(40 bytes, nbits=np.uint8(1), buffer of 320) -> {out}"
 
 
+def F34(fil):
+    from sigpyproc import params
+    d = params.compute_dmdelays([1400.0], 50.0, 1e-3, 1500.0)
+    cube = FoldedData(np.random.default_rng(0).normal(size=(4, 1, 16)).astype(np.float32), fil.header.new_header({"nchans": 1}), 0.1, 10.0)
+    out = outcome(lambda: (cube.update_dm(20.0), cube.update_dm(30.0), cube.dm)[-1])
+    return np.ndim(d) != 1 or out[0] == "exc", f"compute_dmdelays(one channel) has ndim {np.ndim(d)}; one-sub-band cube: update_dm(20); update_dm(30) -> {out}"
+
+
+def F35(fil):
+    x = np.random.default_rng(2).normal(size=(1, 16))
+    out = {m: outcome(lambda m=m: stats.estimate_scale(x, m, axis=1, keepdims=True).shape) for m in ("iqr", "mad")}
+    return any(v != ("ok", (1, 1)) for v in out.values()), f"estimate_scale(shape (1, 16), axis=1, keepdims=True): {out}"
+
+
+def F36(fil):
+    sys.path.insert(0, os.path.dirname(os.path.abspath(__file__)))
+    from mkfits import make_psrfits, oracle
+    info = make_psrfits("f36.sf", nbits=8, npol=1, nsblk=8, nsub=3, nchan=6, ascending=False, zero_off=0.0, pol_type="AA+BB")
+    out = outcome(lambda: bool(np.allclose(PFITSReader("f36.sf").read_block(0, 24).data, oracle(info), rtol=1e-6, atol=1e-4)))
+    return out != ("ok", True), f"single-polarisation (NPOL=1) 8-bit PSRFITS: read_block(0, 24) equals the oracle -> {out}"
+
+
 ALL = {k: v for k, v in globals().items() if k.startswith("F") and k[1:].isdigit()}
 
 
